@@ -67,6 +67,8 @@ pub enum ExtraKind {
     Import,
     FromImport,
     FromImportUnknownName,
+    /// `from "modcap.txt" import banner`: the variable is built by a set block that contains a block
+    FromImportCapturedBlock,
     /// error shapes
     IncludeMissing,
     ImportMissing,
@@ -80,6 +82,10 @@ pub enum Place {
     WithInBlock,
     /// inside a macro declared at the template's top level and called from a block
     Macro,
+    /// inside a set block at the template's top level (in an extending template that is a real
+    /// capture within the discarded region); every block prints the captured value
+    #[serde(alias = "TopCapture")]
+    TopCapture,
 }
 
 #[derive(Clone, Copy, Debug, Serialize, Deserialize, PartialEq, Eq, Hash)]
@@ -178,6 +184,17 @@ fn helper_templates() -> BTreeMap<String, Vec<Stmt>> {
         ],
     );
     m.insert(
+        "modcap.txt".to_string(),
+        vec![
+            Stmt::SetBlock {
+                name: "banner".into(),
+                filter: None,
+                body: vec![text("["), Stmt::Block { name: "bn".into(), scoped: false, required: false, body: vec![text("BN")] }, text("]")],
+            },
+            Stmt::Macro { name: "mc".into(), params: vec![], body: vec![text("MC")] },
+        ],
+    );
+    m.insert(
         "alt.txt".to_string(),
         vec![
             text("ALT["),
@@ -241,6 +258,11 @@ fn extra_stmts(kind: ExtraKind, k: usize, in_macro: bool) -> Vec<Stmt> {
             Stmt::Emit(Expr::Test(Box::new(v("nothere")), "defined".into(), vec![], false)),
             Stmt::Emit(call0(v("m2"))),
         ],
+        ExtraKind::FromImportCapturedBlock => vec![
+            Stmt::FromImport { name: s("modcap.txt"), names: vec![("banner".into(), Some(format!("bq{k}"))), ("mc".into(), Some(format!("mc{k}")))] },
+            Stmt::Emit(v(&format!("bq{k}"))),
+            Stmt::Emit(call0(v(&format!("mc{k}")))),
+        ],
         ExtraKind::IncludeMissing => vec![Stmt::Include { name: s("missing1.txt"), ignore_missing: false }],
         ExtraKind::ImportMissing => vec![Stmt::Import { name: s("missing1.txt"), alias: h }],
     }
@@ -251,11 +273,12 @@ fn extra_stmts(kind: ExtraKind, k: usize, in_macro: bool) -> Vec<Stmt> {
 fn placed_extra(mut e: Extra, k: usize) -> (Vec<Stmt>, Vec<Stmt>) {
     // the root layout reads template-level variables and fails in its own ways: it is only
     // included where both are specified (inside blocks, not from macros, not in discarded regions)
-    if e.kind == ExtraKind::IncludeSameBase && matches!(e.place, Place::Top | Place::Macro) {
+    if e.kind == ExtraKind::IncludeSameBase && matches!(e.place, Place::Top | Place::Macro | Place::TopCapture) {
         e.kind = ExtraKind::Include;
     }
     match e.place {
         Place::Top | Place::Block => (extra_stmts(e.kind, k, false), vec![]),
+        Place::TopCapture => (vec![], vec![Stmt::SetBlock { name: format!("cap{k}"), filter: None, body: extra_stmts(e.kind, k, false) }]),
         Place::LoopInBlock => (
             vec![Stmt::For {
                 target: Target::Name("i".into()),
@@ -296,6 +319,14 @@ fn block_stmt(case: &ChainCase, k: usize, bi: usize, extra_here: &mut Option<Vec
     for j in 0..case.levels.len() {
         if case.levels[j].top_set {
             body.push(Stmt::Emit(v(&format!("lv{j}"))));
+        }
+    }
+    // so are the values captured by top-level set blocks
+    for j in 0..case.levels.len() {
+        if case.levels[j].extra.map_or(false, |e| e.place == Place::TopCapture) {
+            body.push(text("<cap:"));
+            body.push(Stmt::Emit(v(&format!("cap{j}"))));
+            body.push(text(">"));
         }
     }
     if let Some(x) = extra_here.take() {
@@ -354,7 +385,11 @@ pub fn build(case: &ChainCase) -> BTreeMap<String, Vec<Stmt>> {
             .collect();
         let mut block_extra: Option<Vec<Stmt>> = None;
         let mut top_extra: Vec<Stmt> = vec![];
-        if let Some(e) = lvl.extra {
+        if let Some(mut e) = lvl.extra {
+            // without a block of its own the extra ends up at the template's top level
+            if tops.is_empty() && matches!(e.place, Place::Block | Place::LoopInBlock | Place::WithInBlock) {
+                e.place = Place::Top;
+            }
             let (at, top) = placed_extra(e, k);
             body.extend(top);
             if e.place == Place::Top || tops.is_empty() {
@@ -516,7 +551,7 @@ fn labels_for(case: &ChainCase, v: &mut Verdict) {
     let placed = case
         .levels
         .iter()
-        .any(|l| l.extra.map_or(false, |e| matches!(e.place, Place::LoopInBlock | Place::Macro | Place::Block | Place::WithInBlock)));
+        .any(|l| l.extra.map_or(false, |e| matches!(e.place, Place::LoopInBlock | Place::Macro | Place::Block | Place::WithInBlock | Place::TopCapture)));
     v.nontrivial = (n >= 3 && gap) || placed;
     if gap {
         v.labels.push("super_or_fallthrough_across_gap");
@@ -527,7 +562,7 @@ fn labels_for(case: &ChainCase, v: &mut Verdict) {
     if case.levels.iter().take(n.saturating_sub(1)).any(|l| matches!(l.ext, ExtStyle::InIf | ExtStyle::Dynamic | ExtStyle::Ternary)) {
         v.labels.push("conditional_or_dynamic_extends");
     }
-    if case.levels.iter().any(|l| l.extra.map_or(false, |e| matches!(e.kind, ExtraKind::Import | ExtraKind::FromImport | ExtraKind::FromImportUnknownName))) {
+    if case.levels.iter().any(|l| l.extra.map_or(false, |e| matches!(e.kind, ExtraKind::Import | ExtraKind::FromImport | ExtraKind::FromImportUnknownName | ExtraKind::FromImportCapturedBlock))) {
         v.labels.push("has_import");
     }
     if case.levels.iter().any(|l| l.extra.map_or(false, |e| e.kind == ExtraKind::FromImportUnknownName)) {
@@ -550,6 +585,9 @@ fn labels_for(case: &ChainCase, v: &mut Verdict) {
         })
     }) {
         v.labels.push("has_include");
+    }
+    if case.levels.iter().any(|l| l.extra.map_or(false, |e| e.place == Place::TopCapture)) {
+        v.labels.push("extra_inside_top_level_capture");
     }
     if !case.flag {
         v.labels.push("flag_false");
@@ -587,6 +625,7 @@ fn extra_strategy() -> BoxedStrategy<Option<Extra>> {
         3 => Just(ExtraKind::Import),
         3 => Just(ExtraKind::FromImport),
         1 => Just(ExtraKind::FromImportUnknownName),
+        2 => Just(ExtraKind::FromImportCapturedBlock),
     ];
     let place = prop_oneof![
         Just(Place::Top),
@@ -594,6 +633,7 @@ fn extra_strategy() -> BoxedStrategy<Option<Extra>> {
         Just(Place::LoopInBlock),
         Just(Place::WithInBlock),
         Just(Place::Macro),
+        Just(Place::TopCapture),
     ];
     prop_oneof![
         3 => Just(None),
@@ -744,6 +784,80 @@ impl Part for Shapes {
                 v
             }
         }
+    }
+
+    fn check(c: &ChainCase) -> Verdict {
+        Chains::check(c)
+    }
+
+    fn show(c: &ChainCase) -> serde_json::Value {
+        Chains::show(c)
+    }
+}
+
+// ---------------------------------------------------------------------------
+// part 2b: every include / import kind at every place of every level of short chains
+
+pub struct ExtrasGrid;
+
+const GRID_KINDS: [ExtraKind; 13] = [
+    ExtraKind::Include,
+    ExtraKind::IncludeDynamic,
+    ExtraKind::IncludeListFirstMissing,
+    ExtraKind::IncludeMissingIgnored,
+    ExtraKind::IncludeListAllMissingIgnored,
+    ExtraKind::IncludeListFirstMissingIgnored,
+    ExtraKind::IncludeThinChild,
+    ExtraKind::IncludeSameBase,
+    ExtraKind::IncludeWithOwnChain,
+    ExtraKind::Import,
+    ExtraKind::FromImport,
+    ExtraKind::FromImportUnknownName,
+    ExtraKind::FromImportCapturedBlock,
+];
+
+const GRID_PLACES: [Place; 6] = [Place::Top, Place::Block, Place::LoopInBlock, Place::WithInBlock, Place::Macro, Place::TopCapture];
+
+impl Part for ExtrasGrid {
+    type Case = ChainCase;
+    const NAME: &'static str = "include_import_grid";
+
+    fn strategy(tier: Tier) -> BoxedStrategy<ChainCase> {
+        Chains::strategy(tier)
+    }
+
+    fn enumeration(_tier: Tier) -> Vec<ChainCase> {
+        use BlockChoice::*;
+        let layouts: [[BlockChoice; 4]; 4] = [
+            [Plain, Absent, Absent, Absent],
+            [SuperBefore, Absent, Absent, Absent],
+            [Plain, Absent, Plain, Absent],
+            [Absent, Absent, Absent, Absent],
+        ];
+        let mut out = vec![];
+        for n in 1..=3usize {
+            for k in 0..n {
+                for kind in GRID_KINDS {
+                    for place in GRID_PLACES {
+                        for layout in layouts {
+                            for (top_set, flag) in [(false, true), (true, true), (false, false)] {
+                                let levels = (0..n)
+                                    .map(|j| Level {
+                                        blocks: if j + 1 == n && layout[0] == SuperBefore { [Plain, Absent, Absent, Absent] } else { layout },
+                                        ext: if j == 0 && !flag { ExtStyle::InIf } else { ExtStyle::First },
+                                        top_set,
+                                        text_outside: j == k,
+                                        extra: if j == k { Some(Extra { kind, place }) } else { None },
+                                    })
+                                    .collect();
+                                out.push(ChainCase { levels, flag });
+                            }
+                        }
+                    }
+                }
+            }
+        }
+        out
     }
 
     fn check(c: &ChainCase) -> Verdict {
@@ -1101,10 +1215,10 @@ impl Part for JoinedCycles {
     }
 }
 
-crate::declare_parts!(Chains, Shapes, ErrorShapes, JoinedCycles);
+crate::declare_parts!(Chains, Shapes, ExtrasGrid, ErrorShapes, JoinedCycles);
 
 pub fn run(ctx: &mut Ctx) {
-    ctx.rule = "inheritance chains of 1-5 templates described by a shape vector: per (template, block in {a, b, c nested in a, d nested in c}) one of absent / override / super() before / after / twice / self.b(); extends as first tag, after text, inside `if flag`, with a dynamic name or a conditional expression; top-level set and text outside blocks; per template optionally an include (literal, dynamic, list with missing first entry, ignore missing, of a template with its own chain reusing block name a) or import / from-import (aliases, unknown names) placed at top level, in a block, in a loop or with-block inside a block, or inside a macro. Oracle: the reference interpreter's multi-template semantics (most-derived definition, super() = next defining ancestor, fall-through, discarded outside text, include sees current variables, module exposes exactly top-level macros and variables). Part all_shape_vectors enumerates every shape vector over {a, c in a} x 5 choices for chains up to 4 (quick) / 5 (thorough) templates (thorough also with block b, up to 4 templates); a root with super() is left to error_shapes. Part error_shapes enumerates inheritance/include/import cycles, double extends, missing parent/include/import, super() without parent or outside a block, required block not overridden: the render must return an error of the documented kind; part cycles_under_path_join_callback spells cycles of 1-4 templates with relative names under the documented path-join callback. Non-trivial: >=3 templates with a block defined at non-adjacent levels, or an include/import inside a block, loop, with or macro. Distinct by shape vector.".into();
+    ctx.rule = "inheritance chains of 1-5 templates described by a shape vector: per (template, block in {a, b, c nested in a, d nested in c}) one of absent / override / super() before / after / twice / self.b(); extends as first tag, after text, inside `if flag`, with a dynamic name or a conditional expression; top-level set and text outside blocks; per template optionally an include (literal, dynamic, list with missing first entry, ignore missing, of a template with its own chain reusing block name a) or import / from-import (aliases, unknown names) placed at top level, in a block, in a loop or with-block inside a block, inside a macro, or inside a top-level set block whose captured value every block prints (in an extending template that is a real capture within the discarded region); from-import of a variable that a set block containing a block built. Part include_import_grid enumerates every kind x place x level of chains of 1-3 templates x 4 block layouts. Oracle: the reference interpreter's multi-template semantics (most-derived definition, super() = next defining ancestor, fall-through, discarded outside text, include sees current variables, module exposes exactly top-level macros and variables). Part all_shape_vectors enumerates every shape vector over {a, c in a} x 5 choices for chains up to 4 (quick) / 5 (thorough) templates (thorough also with block b, up to 4 templates); a root with super() is left to error_shapes. Part error_shapes enumerates inheritance/include/import cycles, double extends, missing parent/include/import, super() without parent or outside a block, required block not overridden: the render must return an error of the documented kind; part cycles_under_path_join_callback spells cycles of 1-4 templates with relative names under the documented path-join callback. Non-trivial: >=3 templates with a block defined at non-adjacent levels, or an include/import inside a block, loop, with or macro. Distinct by shape vector.".into();
     ctx.assumptions = vec![
         "refint.rs implements the documented composition semantics; names assigned by an included template are never read afterwards, super() into a required block and required blocks below an overriding definition are not generated (the documentation is silent)".into(),
         "macro bodies only read their parameters and render-context variables (what a macro sees of its defining template's later top-level assignments is not specified)".into(),
@@ -1114,5 +1228,6 @@ pub fn run(ctx: &mut Ctx) {
     ctx.run_enumerated::<ErrorShapes>(ErrorShapes::enumeration(t), false);
     ctx.run_enumerated::<JoinedCycles>(JoinedCycles::enumeration(t), false);
     ctx.run_enumerated::<Shapes>(Shapes::enumeration(t), true);
+    ctx.run_enumerated::<ExtrasGrid>(ExtrasGrid::enumeration(t), true);
     ctx.run_part::<Chains>(t.pick(40_000, 12_000_000));
 }
